@@ -45,6 +45,19 @@ Theorem C16_fail_unchanged : forall (ow : bool) (jk : Z) (sq : nat) (q : q1) (o 
 Proof. exact step_fail_unchanged. Qed.
 Print Assumptions C16_fail_unchanged.
 
+(* the ideal operation answers "none"/"err" exactly when it is undefined (empty sequence, bad index, item not
+   present) and then returns the sequence unchanged; with C16_step_refines the Queue reports failure in exactly
+   those cases *)
+Theorem C16_ideal_fails_iff : forall (l : list Z) (o : op),
+  (snd (step0 l o) = OVal None \/ snd (step0 l o) = OStatus false) <-> undefined0 l o.
+Proof. exact step0_fails_iff. Qed.
+Print Assumptions C16_ideal_fails_iff.
+
+Theorem C16_ideal_fail_unchanged : forall (l : list Z) (o : op),
+  snd (step0 l o) = OVal None \/ snd (step0 l o) = OStatus false -> fst (step0 l o) = l.
+Proof. exact step0_fail_unchanged. Qed.
+Print Assumptions C16_ideal_fail_unchanged.
+
 (* every operation list from the empty queue *)
 Theorem C16_queue_refines : forall (ow : bool) (jk : Z) (sq : nat) (ops : list op), 0 < sq ->
   inv ow sq (fst (run1 ow jk sq ops)) /\
